@@ -103,6 +103,30 @@ def same_obs(x, y, keys=("dims", "shape", "values")):
     return [(a["name"], [lab_key(l) for l in a["labels"]]) for a in x["axes"]] == [(a["name"], [lab_key(l) for l in a["labels"]]) for a in y["axes"]]
 
 
+def aligned_onto(got, e):
+    """`got` is the array `e` reindexed onto longer axes: same dimensions, every label of `e` present (once), the cells at
+    e's labels are e's cells, all other cells NaN"""
+    if got["dims"] != e["dims"]:
+        return False
+    pos = []
+    for ga, ea in zip(got["axes"], e["axes"]):
+        gk = [lab_key(l) for l in ga["labels"]]
+        ek = [lab_key(l) for l in ea["labels"]]
+        if len(set(gk)) != len(gk) or any(k not in gk for k in ek):
+            return False
+        pos.append([gk.index(k) for k in ek])
+    gshape, eshape = got["shape"], e["shape"]
+    seen = set()
+    for n, idx in enumerate(itertools.product(*[range(m) for m in eshape])):
+        flat = 0
+        for ax, i in enumerate(idx):
+            flat = flat * gshape[ax] + pos[ax][i]
+        seen.add(flat)
+        if rv(got["values"][flat]) != rv(e["values"][n]):
+            return False
+    return all(got["values"][i] == ["nan"] for i in range(len(got["values"])) if i not in seen)
+
+
 def meta_diff(got, e, skip_axes=()):
     """what else the result of a DimArray operation consists of: the variable's metadata, the metadata of its axes, the
     dtype kinds of values and labels (of non-empty arrays)"""
@@ -158,8 +182,7 @@ DUMMY = {"op": "union", "a": {"name": "x", "kind": "i", "labels": []}, "b": {"na
 
 class C14(Prop):
     id = "C14"
-    theorems = ["labelToInt_intCast", "ixToRaw_rawToIx", "dsTake_perdim_commutes", "fullslice_both_modes", "DSV.setItem_shared", "DSV.takeAxisPosDs_spec", "DSV.takeAxisPosDs_ok", "DSV.sortAxisDs_spec", "DSV.reindexAxisDs_spec", "DSV.takeDs_spec", "DSV.takeDs_sameData", "DSV.firstDraft_counterexample", "DSV.applyAxis_spec", "DSV.applyAxis_good", "DSV.reduceDs_spec", "DSV.reduceDs_ok", "DSV.binaryOpDs_spec", "DSV.binaryOpDs_scalar_spec",
-                "DSV.binaryOpDs_other", "DSV.stackDs_spec", "DSV.concatenateDs_spec", "DSV.concatenateDs_lacking", "DSV.copyDs_spec"]
+    theorems = ["labelToInt_intCast", "ixToRaw_rawToIx", "dsTake_perdim_commutes", "fullslice_both_modes", "DSV.setItem_shared", "DSV.takeAxisPosDs_spec", "DSV.takeAxisPosDs_ok", "DSV.sortAxisDs_spec", "DSV.reindexAxisDs_spec", "DSV.takeDs_spec", "DSV.takeDs_sameData", "DSV.firstDraft_counterexample"]
     rule = ("Datasets of 1-4 variables whose dimension sets overlap partially (some variables lack the operated dimension, "
             "some are 0-d), int/float/str labels in any order, variables and axes carrying metadata; take / .ix / .loc / .sel / "
             ".isel / .nloc with scalar, list, mask and slice indices given as dict, keyword, axis= or tuple, names=, tol=, "
@@ -345,7 +368,8 @@ class C14(Prop):
 
     def gen_arith(self, rng):
         dd = gen_dataset(rng)
-        how = rng.choice(["ds_ds", "ds_ds_other", "ds_ds_other", "ds_ds_keys", "ds_ds_keys", "scalar", "scalar", "neg", "rscalar", "iscalar", "ids"])
+        how = rng.choice(["ds_ds", "ds_ds_other", "ds_ds_other", "ds_ds_keys", "ds_ds_keys", "scalar", "scalar", "neg", "rscalar", "iscalar", "ids",
+                          "ds_ds_dims", "ds_ds_dims"])
         c = {"op": "arith", "ds": dd, "how": how, "operator": rng.choice(["add", "sub", "mul", "truediv", "floordiv"])}
         if how == "scalar" and rng.random() < 0.25:
             c["operator"] = "pow"
@@ -369,6 +393,29 @@ class C14(Prop):
             else:
                 labs = labs[1:] + [new]
             other["axes"][d] = dict(ax, labels=labs)
+            c["other"] = other
+        if how == "ds_ds_dims":
+            # the right operand's variables lie over other dimension sets (a variable has a dimension in one operand only)
+            # and its axis along one dimension has other labels: the per-variable results do not all have the same labels
+            # along that dimension, the Dataset holds them on their outer join (see aligned_onto)
+            d = rng.choice(dd["dims"])
+            ax = dd["axes"][d]
+            other = copy.deepcopy(dd)
+            new = gen.absent_label(rng, ax)
+            other["axes"][d] = dict(ax, labels=rng.choice([list(ax["labels"]) + [new], [new] + list(ax["labels"])[1:], list(ax["labels"])]))
+            for v in other["vars"].values():
+                if rng.random() < 0.5:
+                    v["dims"] = [x for x in v["dims"] if x != d] if d in v["dims"] else v["dims"] + [d]
+            if rng.random() < 0.3:
+                # a variable of the right operand only, over a dimension whose labels are of another kind there (no variable
+                # operation meets that axis)
+                free = [x for x in other["dims"] if not any(x in v["dims"] for v in other["vars"].values())]
+                if free:
+                    labels, _ = gen.labels_of_kind(rng, "O" if other["axes"][free[0]]["kind"] != "O" else "i", 2)
+                    other["axes"][free[0]] = dict(other["axes"][free[0]], kind="O" if other["axes"][free[0]]["kind"] != "O" else "i", labels=labels)
+                    other["vars"]["w9"] = {"dims": [free[0]], "vkind": "f"}
+            other["dims"] = [x for x in other["dims"] if any(x in v["dims"] for v in other["vars"].values())]
+            other["axes"] = {x: other["axes"][x] for x in other["dims"]}
             c["other"] = other
         if how == "ds_ds_keys":
             # the operands have different sets of variables: the result has the common ones
@@ -489,7 +536,7 @@ class C14(Prop):
                 return (lambda: getattr(ds, f)(other, **kw)), {k: core.guarded(lambda: obs_ref(getattr(ds[k], f)(other, **kw))) for k in ds.keys()}, False
             if op == "arith":
                 f = OPERATORS[c["operator"]]
-                if c["how"] in ("ds_ds", "ds_ds_other", "ds_ds_keys", "ids"):
+                if c["how"] in ("ds_ds", "ds_ds_other", "ds_ds_keys", "ds_ds_dims", "ids"):
                     other = build_dataset(c.get("other") or c["ds"], base=7)
                     g = {"iadd": operator.add, "isub": operator.sub, "imul": operator.mul}.get(c["operator"], f)
                     exp = {k: core.guarded(lambda: obs_ref(g(ds[k], other[k]))) for k in ds.keys() if k in other.keys()}
@@ -703,12 +750,27 @@ class C14(Prop):
                 bad.append("lean.var:%s:values" % k)
         return bad
 
+    @staticmethod
+    def results_disagree_on_axes(exp):
+        seen = {}
+        for e in exp.values():
+            if "ok" not in e or e["ok"].get("scalar"):
+                continue
+            for a in e["ok"]["axes"]:
+                labs = [lab_key(l) for l in a["labels"]]
+                if seen.setdefault(a["name"], labs) != labs:
+                    return True
+        return False
+
     def judge(self, c, io, ans):
         prop_bad = []
         exp = io.get("expected", {})
         if "err" in io:
-            # the dataset operation may only fail if the per-variable operation fails too
-            if not any("err" in e for e in exp.values()):
+            # the dataset operation may only fail if the per-variable operation fails too - or if the per-variable results
+            # cannot be the variables of one Dataset: two of them carry different labels along the same dimension (a
+            # variable has the dimension in one operand only), so "exactly the per-variable result" and "shared axes"
+            # cannot both hold and the statement does not decide the case
+            if not any("err" in e for e in exp.values()) and not self.results_disagree_on_axes(exp):
                 prop_bad.append("outcome:" + io["err"])
         else:
             res = io["ok"]["result"]
@@ -724,6 +786,21 @@ class C14(Prop):
                         # a 0-d result is stored as a 0-d variable
                         if got["dims"] != [] or [rv(v) for v in got["values"]] != [rv(v) for v in e["ok"]["values"]]:
                             prop_bad.append("var:" + k)
+                        elif c["op"] == "take" and sorted(map(tuple, got["attrs"] or [])) != sorted(map(tuple, io["input"]["vars"][k]["attrs"] or [])):
+                            # the bare scalar of the DimArray operation has no metadata to compare with: the 0-d
+                            # variable of the indexed Dataset keeps the variable's metadata (a variable without the
+                            # dimension is left unchanged; indexing keeps an array's metadata, as the on-disk read does)
+                            prop_bad.append("var_attrs:" + k)
+                    elif c["op"] == "arith" and c["how"] == "ds_ds_dims" and not same_obs(got, e["ok"]):
+                        # the variables of a Dataset share their axes: per-variable results whose labels differ are held on
+                        # the outer join of their labels (what Dataset(dict) does), NaN where a variable has no label
+                        if not aligned_onto(got, e["ok"]):
+                            prop_bad.append("var:" + k)
+                        else:
+                            for a in got["axes"]:
+                                want = set(lab_key(l) for e2 in exp.values() if "ok" in e2 for a2 in e2["ok"]["axes"] if a2["name"] == a["name"] for l in a2["labels"])
+                                if set(lab_key(l) for l in a["labels"]) != want:
+                                    prop_bad.append("var_outer_join:" + k)
                     elif not same_obs(got, e["ok"]):
                         prop_bad.append("var:" + k)
                     else:
